@@ -156,7 +156,7 @@ pub fn run(tier: Tier, seed: u64) -> i32 {
         s.assume(a);
     }
     s.regress::<Iso, _>("world-differential", case);
-    s.search("world-differential", "world-differential", tier.pick(300, 8000), iso_strategy, case);
+    s.search("world-differential", "world-differential", tier.pick(800, 8000), iso_strategy, case);
     s.finish()
 }
 
